@@ -35,6 +35,8 @@ BufStream(b) == [id |-> b.id, w |-> Limbs(b)]
 SeedStream(s) == [id |-> "seed:" \o s.d, w |-> <<>>]
 Err(e) == [class |-> e.class, site |-> e.site, msg |-> e.msg]
 
+Verdicts == IF Property = "ALL" THEN UNION { VerdictOf[p] : p \in DOMAIN VerdictOf } ELSE VerdictOf[Property]
+
 NoPrev == [valid |-> FALSE]
 NoRun == [run |-> 0]
 
@@ -57,6 +59,13 @@ ScenBegin ==
   /\ scen' = Ev /\ prev' = NoPrev /\ runlog' = <<>> /\ runinfo' = NoRun /\ ffBuf' = NoStream /\ topInv' = 0
   /\ viol' = {} /\ pc' = "idle"
   /\ UNCHANGED <<cfg, ffq, ff, pend, valid, invalid, seed, cur, flag, e1, e2, buf, best, orig, sErr, cache, shrinks, rep, tbFailed, tbFailNow, mon>>
+
+\* end of a scenario: obligations only accumulate within a scenario, so judging here is judging every state of it;
+\* the verdict is printed and validation goes on with the next scenario (every violating scenario is reported)
+ScenEnd ==
+  /\ Is("scen.end") /\ Adv /\ EUnch /\ viol' = viol
+  /\ IF viol \cap Verdicts = {} THEN TRUE ELSE PrintT(<<"VIOLATED", scen.id, viol \cap Verdicts, l>>)
+  /\ UNCHANGED <<scen, ffBuf, topInv, runlog, prev, runinfo>>
 
 \* files a run must pick up by itself: everything in the test's directory that matches the documented pattern
 Globbed(files) == { files[i].path : i \in { j \in 1..Len(files) : files[j].glob } }
@@ -131,6 +140,12 @@ Call ==
   /\ viol' = viol
   /\ UNCHANGED <<scen, ffBuf, topInv, runlog, prev, runinfo>>
 
+\* a context obtained while the property function is still running must be live
+Ctx ==
+  /\ Is("ctx") /\ Adv /\ EUnch
+  /\ viol' = viol \cup If(Running /\ cur.obs.ended = "running" /\ Ev.inv = topInv /\ Ev.err # "nil", "dead_context_in_body")
+  /\ UNCHANGED <<scen, ffBuf, topInv, runlog, prev, runinfo>>
+
 InvEnd ==
   /\ Is("inv.end") /\ Adv
   /\ SetObs([cur.obs EXCEPT !.ended = IF Ev.how = "ret" THEN "ret" ELSE IF Ev.last = "skip" THEN "skip" ELSE "unwind"])
@@ -138,7 +153,7 @@ InvEnd ==
   /\ UNCHANGED <<scen, ffBuf, topInv, runlog, prev, runinfo>>
 
 \* events the engine specification does not talk about (custom-function brackets etc.)
-Handled == {"scen.begin", "run.begin", "h.failfiles", "h.ff.load", "h.phase", "h.once.begin", "inv.begin", "draw", "call", "inv.end",
+Handled == {"scen.end", "ctx", "scen.begin", "run.begin", "h.failfiles", "h.ff.load", "h.phase", "h.once.begin", "inv.begin", "draw", "call", "inv.end",
             "h.once.end", "h.shrink.begin", "h.accept", "h.shrink.end", "h.docheck.ret", "h.save", "tb.logf", "tb.errorf", "tb.failnow",
             "run.end", "fs"}
 Other ==
@@ -186,7 +201,10 @@ TBLog ==
   /\ Is("tb.logf") /\ Adv
   /\ CASE Ev.class = "ok" -> Do(V_PassLogged(Ev.valid), E_PassLogged(Ev.valid))
        [] Ev.class = "ffignore" -> Do(V_FFIgnoreLogged, E_FFIgnoreLogged)
-       [] Ev.class = "draw" /\ cur.kind = "final" -> E_DrawLogged(Ev.label, Ev.val) /\ viol' = viol
+       [] Ev.class = "draw" /\ cur.kind = "final" ->
+            E_DrawLogged(IF Ev.auto >= 0 THEN "" ELSE Ev.label, Ev.val) /\ viol' = viol \cup If(Ev.auto >= 0 /\ Ev.auto # Len(cur.obs.draws), "label_carried_over")
+       [] Ev.class = "draw" /\ cur.kind # "final" ->
+            EUnch /\ viol' = viol \cup If(Running /\ Ev.auto >= 0 /\ Ev.auto # Len(cur.obs.draws), "label_carried_over")
        [] OTHER -> EUnch /\ viol' = viol
   /\ UNCHANGED <<scen, ffBuf, topInv, runlog, prev, runinfo>>
 
@@ -268,16 +286,15 @@ FS ==
   /\ EUnch /\ viol' = viol \cup V_FS(Ev.files)
   /\ UNCHANGED <<scen, ffBuf, topInv, runlog, prev, runinfo>>
 
-Next == ScenBegin \/ RunBegin \/ FFList \/ FFLoad \/ Phase \/ OnceBegin \/ InvBegin \/ Draw \/ Call \/ InvEnd \/ Other
+Next == ScenEnd \/ Ctx \/ ScenBegin \/ RunBegin \/ FFList \/ FFLoad \/ Phase \/ OnceBegin \/ InvBegin \/ Draw \/ Call \/ InvEnd \/ Other
         \/ OnceEnd \/ ShrinkBegin \/ Accept \/ ShrinkEnd \/ DoCheckRet \/ Save \/ TBLog \/ TBErrorf \/ TBFailNow \/ RunEnd \/ FS
 
 Spec == Init /\ [][Next]_vars
 
 ---------------------------------------------------------------------------
-Verdicts == IF Property = "ALL" THEN UNION { VerdictOf[p] : p \in DOMAIN VerdictOf } ELSE VerdictOf[Property]
-
 \* no obligation of the property under check is violated, at any step of any recorded execution
-NoVerdictViolation == viol \cap Verdicts = {}
+NoVerdictViolation == \/ viol \cap Verdicts = {}
+                      \/ PrintT(<<"VIOLATED", scen.id, viol \cap Verdicts, l>>) /\ FALSE
 
 \* high-water mark of consumed lines, and the binding obligations lost (reported, never alarmed)
 HW == /\ TLCSet(1, IF l > TLCGet(1) THEN l ELSE TLCGet(1))
